@@ -111,6 +111,21 @@ def cases(rng, which, count):
                 for sub in ("nseq", "length", "taxa", "gaps"):
                     yield Case("cli_lib", [se, "stats", sub], True, "cli-stats-" + sub)
                 yield Case("cli_lib", [se, "diff"], True, "cli-diff")
+            elif w == "diff":
+                # `diff` with its flags: rows derived from the first one (so that pairs repeat), `.` among the characters
+                # (restored by `--reverse`), gaps on either side (`--no-gaps`), one row only, flags in any order
+                base = "".join(rng.choice("ACGT-") for _ in range(L))
+                dr = [(nm, "".join((rng.choice("ACGTacN-.") if rng.random() < 0.3 else b) for b in base)) for nm, _ in rows]
+                if rng.random() < 0.1:
+                    dr = dr[:1]
+                if rng.random() < 0.5:
+                    dr[0] = (dr[0][0], "".join(rng.choice("ACGT.-") if rng.random() < 0.2 else b for b in dr[0][1]))
+                if rng.random() < 0.08:
+                    dr = [dr[0]] + [(nm, dr[0][1]) for nm, _ in dr[1:]]            # nothing differs
+                k = rng.random()
+                fl = ["--counts"] if k < 0.3 else ["--counts", "--no-gaps"] if k < 0.55 else ["--reverse"] if k < 0.8 else ["--no-gaps"] if k < 0.85 else ["--counts", "--reverse"] if k < 0.92 else []
+                rng.shuffle(fl)
+                yield Case("cli_lib", [esc(fasta(dr)), "diff"] + fl, True, "cli-diff" + "".join(sorted(fl)))
             elif w == "sites":
                 ss = [str(rng.randint(-1, L)) for _ in range(rng.randint(1, 4))]
                 yield Case("cli_lib", [st, "subsites"] + ss, True, "cli-subsites")
@@ -609,6 +624,45 @@ def cases(rng, which, count):
                     yield Case("cli_libf", [st, "o.fa=" + esc(fasta(other)), "concat", "o.fa"] + fl, True, "cli-concat")
                 ap = [(rng.choice(names + ["n1", "n2", "n3"]), "".join(rng.choice(SYM) for _ in range(rng.choice([L, L, L, L + 1])))) for _ in range(rng.randint(1, 3))]
                 yield Case("cli_libf", [st, "o.fa=" + esc(fasta(ap)), "append", "o.fa"], True, "cli-append")
+                # several files: `concat a.fa b.fa c.fa [-l log]` (also without stdin: `-i none`), `append a.fa b.fa`
+                k = rng.randint(2, 3)
+                fns = ["a.fa", "b.fasta", "c_3.fa"][:k]
+                parts = []
+                for fn in fns:
+                    Lk = rng.randint(1, 6)
+                    on = rng.sample(names, rng.randint(1, len(names))) + (["extra"] if rng.random() < 0.4 else []) + (["e2"] if rng.random() < 0.2 else [])
+                    rng.shuffle(on)
+                    parts.append((fn, [(nm, "".join(rng.choice(SYM) for _ in range(Lk))) for nm in on]))
+                if rng.random() < 0.07:
+                    fn, pr = parts[-1]
+                    parts[-1] = (fn, pr + [("ragged", pr[0][1] + "A")])                  # not an alignment
+                spec = ";;".join("%s=%s" % (fn, esc(fasta(pr))) for fn, pr in parts)
+                order = list(fns)
+                if rng.random() < 0.3:
+                    rng.shuffle(order)
+                if rng.random() < 0.1:
+                    order.append(order[0])                                              # a file twice
+                fl = list(order)
+                if rng.random() < 0.6:
+                    lg = [rng.choice(["-l", "--log"]), "log.txt"]
+                    fl = rng.choice([lg + fl, fl + lg, fl[:1] + lg + fl[1:]])
+                if rng.random() < 0.3:
+                    fl = ["-i", "none"] + fl
+                if rng.random() < 0.05:
+                    fl.append("absent.fa")
+                yield Case("cli_libf", [st, spec, "concat"] + fl, True, "cli-concat-multi" + ("-nostdin" if "-i" in fl else ""))
+                aparts = []
+                for fn in fns:
+                    aparts.append((fn, [(rng.choice(names + ["n1", "n2", "n3", "n4", "n5"]), "".join(rng.choice(SYM) for _ in range(rng.choice([L, L, L, L, L, L + 1])))) for _ in range(rng.randint(1, 3))]))
+                aspec = ";;".join("%s=%s" % (fn, esc(fasta(pr))) for fn, pr in aparts)
+                yield Case("cli_libf", [st, aspec, "append"] + order + (["absent.fa"] if rng.random() < 0.04 else []), True, "cli-append-multi")
+            elif w == "sort-more":
+                rr = list(rows)
+                rng.shuffle(rr)
+                rr = [("%s%s" % (rng.choice("bAaZ_"), nm), s) for nm, s in rr]
+                yield Case("cli_libf", [esc(fasta(rr)), "_", "sort", "-o", rng.choice(["sorted.fa", "out.txt"])], True, "cli-sort-output")
+                sq = [(nm, s[:rng.randint(1, len(s))]) for nm, s in rr]
+                yield Case("cli_lib", [esc(fasta(sq)), "sort", "--unaligned"], True, "cli-sort-unaligned")
             elif w == "cleanseqs":
                 cut = rng.choice(["0", "0.25", "0.5", "0.75", "1", "0.1", "0.3"])
                 fl = []
